@@ -178,6 +178,15 @@ func BuildSeedData(sc *Scope) ([]byte, error) {
 	return s.data, nil
 }
 
+// BuildSeedFull returns the seed file and its model.
+func BuildSeedFull(sc *Scope) ([]byte, *refmodel.Node, error) {
+	s, err := BuildSeed(sc)
+	if err != nil {
+		return nil, nil, err
+	}
+	return s.data, s.model, nil
+}
+
 var curPath string
 
 // Fresh opens a fresh copy of the scope's seed.
